@@ -403,7 +403,7 @@ struct Features
 {
     int prim[20] = {0};
     int n_any = 0, n_all = 0, n_neg = 0, n_sub = 0, n_xf = 0, n_rot = 0,
-        n_improper = 0, n_compose = 0, n_planted = 0, n_units = 0,
+        n_improper = 0, n_compose = 0, n_tiny_offset = 0, n_planted = 0, n_units = 0,
         n_daughters = 0, n_daughter_rot = 0, n_reuse = 0, n_regions = 0,
         depth = 0, n_skew = 0, n_twisted = 0, n_degenerate = 0,
         n_oriented_prism = 0, n_explicit = 0, n_background = 0,
